@@ -25,7 +25,7 @@ import (
 )
 
 func TestMain(m *testing.M) {
-	vstat.Rule("Raw TCP backend script: status 200-599, 0-8 end-to-end headers (repeated names), body 0..1 MiB with Content-Length or chunked framing with generated chunk sizes and flush points; fault = one of {connection refused, close before any byte, RST before any byte, partial head then close, garbage head, full head + partial body then close/RST (Content-Length and chunked), never answer (transport ResponseHeaderTimeout), client cancels while the backend holds}. Proxy = StateListener(forward.New(..)), driven in-process (with the server context key present so that an aborted body copy panics as under a real server) and behind httptest.Server with a raw client. The fault x method table is enumerated completely in every run on top of the generated cases. Oracle: no fault => client status, end-to-end header values and body bytes equal the script's; refused/closed/reset before any byte => 502; header timeout => 504; cancellation => 499; partial/garbage head => 500 or 502; abort during body copy => truncated exchange, proxy survives and serves the next request; in all cases the listener saw exactly [connected, disconnected] with the same URL and the exchange terminated. Non-trivial: fault after the response head, or a chunked body > 32 KiB with >= 2 flushes, or cancellation.")
+	vstat.Rule("Raw TCP backend script: any status 200-999, 0-8 end-to-end headers (repeated names), body 0..1 MiB with Content-Length or chunked framing with generated chunk sizes and flush points; fault = one of {connection refused, close before any byte, RST before any byte, partial head then close, garbage head, full head + partial body then close/RST (Content-Length and chunked), never answer (transport ResponseHeaderTimeout), client cancels while the backend holds}. Proxy = StateListener(forward.New(..)), driven in-process (with the server context key present so that an aborted body copy panics as under a real server) and behind httptest.Server with a raw client. The fault x method table is enumerated completely in every run on top of the generated cases. Oracle: no fault => client status, end-to-end header values and body bytes equal the script's; refused/closed/reset before any byte => 502; header timeout => 504; cancellation => 499; partial/garbage head => 500 or 502; abort during body copy => truncated exchange, proxy survives and serves the next request; in all cases the listener saw exactly [connected, disconnected] with the same URL and the exchange terminated. Non-trivial: fault after the response head, or a chunked body > 32 KiB with >= 2 flushes, or cancellation.")
 	log.SetOutput(io.Discard) // httputil.ReverseProxy logs every aborted copy
 	vstat.Main(m.Run)
 }
@@ -73,7 +73,7 @@ var faults = []string{"refused", "close-before", "rst-before", "partial-head", "
 
 func genResp(t *rapid.T) *respScript {
 	s := &respScript{}
-	s.status = rapid.SampledFrom([]int{200, 200, 201, 202, 204, 206, 301, 304, 400, 404, 418, 500, 502, 503, 504, 599}).Draw(t, "status")
+	s.status = rapid.SampledFrom([]int{200, 200, 201, 202, 204, 206, 226, 301, 304, 400, 404, 418, 451, 500, 502, 503, 504, 599, 600, 799, 999}).Draw(t, "status")
 	for i := rapid.IntRange(0, 8).Draw(t, "nh"); i > 0; i-- {
 		s.headers = append(s.headers, [2]string{rapid.SampledFrom([]string{"X-A", "X-B", "Set-Cookie", "Cache-Control", "Etag", "Content-Type", "X-Long", "Location"}).Draw(t, "hn"), rapid.StringMatching(`[a-zA-Z0-9=;,/]{1,16}`).Draw(t, "hv")})
 	}
@@ -324,8 +324,10 @@ func exchange(fatalf func(string, ...any), s *respScript, method string) {
 		if !bytes.HasPrefix(s.body, rec.Body()) || len(rec.Body()) > s.cutAfter {
 			bad("client got %d body bytes which are not a prefix of the %d bytes the backend delivered", len(rec.Body()), s.cutAfter)
 		}
-		if panicked == nil && len(rec.Body()) == len(s.body) {
-			bad("the backend aborted after %d of %d bytes but the client saw a complete exchange", s.cutAfter, len(s.body))
+		if panicked == nil {
+			// under a real server (the request carries the server context key) the proxy must abort
+			// the handler, otherwise net/http ends the truncated response cleanly
+			bad("the backend aborted after %d of %d bytes but forwarding returned normally (%d bytes relayed): the client would see a complete exchange", s.cutAfter, len(s.body), len(rec.Body()))
 		}
 	}
 }
@@ -494,8 +496,8 @@ func TestC16_RealServer(t *testing.T) {
 				t.Fatalf("backend closed before responding: client got %d, want 502", status)
 			}
 		default:
-			if rerr == nil && len(body) == len(s.body) {
-				t.Fatalf("backend aborted after %d of %d bytes but the client saw a complete response\nscript: %s", s.cutAfter, len(s.body), s)
+			if rerr == nil && status != 502 {
+				t.Fatalf("backend aborted after %d of %d bytes but the client's read of the response ended cleanly after %d bytes (status %d): a truncated body was presented as complete\nscript: %s", s.cutAfter, len(s.body), len(body), status, s)
 			}
 		}
 		// the proxy survived
